@@ -224,6 +224,21 @@ func genStream(r *kit.Rand, i int, tier string) []string {
 		switch {
 		case kind == 7 && (j == n/2): // one dirty record in the middle
 			ops = append(ops, dirtyPoint(r, times[j]))
+		case kind == 9 && j == 0 && r.Chance(1, 6): // a line around / beyond bufio.MaxScanTokenSize (64 KiB)
+			// line = `m v="<N bytes>" <time>` : N + 10 + len(time) bytes
+			ts := strconv.FormatInt(times[j], 10)
+			total := kit.Pick(r, []int{65535, 65536, 65537, 65536 + r.Intn(1000), 131072, 262145})
+			n := total - 10 - len(ts)
+			body := strings.Repeat("a", n)
+			if r.Chance(1, 3) {
+				body = strings.Repeat("a", n-4) + "q\"q" // escaped quote: 2 bytes on the wire
+				body = body[:len(body)-1]
+			}
+			db := "db"
+			if r.Chance(1, 8) {
+				db = strings.Repeat("d", 70000)
+			}
+			ops = append(ops, fmt.Sprintf("pt %s rp m - v=%s %d", db, renderValue(body), times[j]))
 		case kind == 8: // framing-directed: every component is a valid line
 			db, rp := lpLike(r), lpLike(r)
 			ops = append(ops, fmt.Sprintf("pt %s %s m - v=%s %d", kit.Esc(db), kit.Esc(rp), renderValue(int64(j)), times[j]))
@@ -292,7 +307,19 @@ func genBatch(r *kit.Rand, i int, tier string) []string {
 		lines = append(lines, fmt.Sprintf("b %s %s %d %s %s", kit.Esc(kit.Pick(r, cleanNames)), b01(r.Bool()), tmax, btags, list(pts, ";")))
 	}
 	ops := []string{fmt.Sprintf("batch %s %d", b01(r.Bool()), genZero(r, firstT))}
-	ops = append(ops, lines...)
+	if kind == 2 || kind == 3 { // several sources (one per batch query of the task), replayed concurrently under one clock
+		for i, l := range lines {
+			ops = append(ops, l)
+			if i+1 < len(lines) && r.Chance(1, 2) {
+				ops = append(ops, "src")
+			}
+		}
+		if r.Chance(1, 4) {
+			ops = append(ops, "src") // a last source without batches
+		}
+	} else {
+		ops = append(ops, lines...)
+	}
 	ops = append(ops, "replay")
 	return ops
 }
